@@ -23,7 +23,8 @@ RULE = (
     "pressure on / off a node (or outside the table, or a missing column, for the rejection cases) and 8 lookup "
     "arguments from (-1e300, 1e300) including values between, at and beyond the nodes. Non-trivial = a valid "
     "construction with p_i off a node or a lookup outside the table's range, or a rejection / non-mutation case on "
-    "a dict. Distinct = hash of the case record."
+    "a dict. After every valid construction the caller's own table is overwritten in place (tables.scribble) and the object's "
+    "m_scaled_func, diffusivity lookup and m_i must be what they were. Distinct = hash of the case record."
 )
 ASSUMPTIONS = [
     "tables have increasing pressure and positive properties (rows with p <= 0 of the shipped CSVs are dropped)",
@@ -258,4 +259,19 @@ def check_case(case) -> Result:
         res.check("C09/scaling-factor", float(np.max(np.abs(ms - tab["pseudopressure"] * factor))), 1e-12 * float(np.max(np.abs(ms))), "m-scaled vs pseudopressure * (c mu z / 2p)(p_i);")
     outside = _lookup_checks(res, fluid, al, ms, case["queries"], cls.__name__)
     res.nontrivial = bool((not on_node) or outside)
+    # the wrapper is a function of the table it was given: when the caller later overwrites its own arrays (converts the
+    # pressures to another unit, re-uses the buffers for the next well) the object in hand must not change
+    pq = np.array([p_i, p_f, 0.5 * (p[0] + p[1]), float(p[len(p) // 2])])
+    pq = pq[(pq >= p[0]) & (pq <= p[-1])]
+    # (asserted for the object's functions and m_i; the `pvt_props` attribute of a wrapper built from a dict shares the
+    # arrays of the columns it did not create with the caller - observed on the unchanged tree, not part of C09)
+    mq = ms.copy()
+    before = (np.asarray(fluid.m_scaled_func(pq), float).copy(), np.asarray(fluid.alpha(mq), float).copy(), float(fluid.m_i))
+    tables.scribble(t)
+    after = (np.asarray(lib("m_scaled_func", fluid.m_scaled_func, pq), float), np.asarray(lib("alpha", fluid.alpha, mq), float), float(fluid.m_i))
+    names = ("m_scaled_func at p_i, p_f and two table pressures", "alpha looked up at the node values", "m_i")
+    for name, b, a in zip(names, before, after):
+        if np.shape(a) != np.shape(b) or not np.array_equal(a, b, equal_nan=True):
+            res.bad("C09/independent-of-later-changes-to-the-callers-table", f"{cls.__name__} ({case['container']}): {name} changed after the caller overwrote its own table in place: {b!r} -> {a!r}")
+            break
     return res
